@@ -129,6 +129,7 @@ for sz in ['e8', 'e16', 'e12']:
 add('k2_range', 'drain_typed_d8_b3', 'drain_hb::<D8>(true, true, DROP, 3)', props=['C02', 'C03'], tier='q', kind='bounded', bound='typed element type with drop glue: at most 3 unyielded range elements (core slice drop glue loop unwound)', attrs=['#[kani::unwind(5)]'], cost=60, inputs=IN_RANGE)
 add('k2_range', 'drain_typed_api_e8', 'typed_api_h::<E8>(false, mk_e8)', props=['C02', 'C01'], tier='q', cost=40)
 add('k2_range', 'splice_typed_api_e8', 'typed_api_h::<E8>(true, mk_e8)', props=['C02'], tier='q', kind='bounded', bound='one replacement value', attrs=U5X, cost=80)
+add('k2_range', 'splice_typed_api_fixed_e8', 'typed_api_hf::<E8>(true, true, mk_e8)', props=['C11', 'C02', 'C19'], tier='q', kind='bounded', bound='one replacement value', attrs=U5X, cost=80)
 add('k2_range', 'drain_forget_e8', 'drain_h::<E8>(false, true, FORGET)', props=['C07', 'C03'], tier='q', cost=5, inputs=IN_RANGE)
 add('k2_range', 'drain_typed_forget_e8', 'drain_h::<E8>(true, false, FORGET)', props=['C07'], tier='q', cost=5, inputs=IN_RANGE)
 add('k2_range', 'drain_forget_e3', 'drain_h::<E3>(false, true, FORGET)', props=['C07'], tier='t', cost=30, inputs=IN_RANGE)
@@ -295,6 +296,8 @@ for nm, op, ty, q in [('remove_oob_e8', 0, 'false', True), ('swap_remove_oob_e8'
 add('k1_misc', 'none_ops_e8', 'none_ops::<E8>()', props=['C01', 'C13'], tier='q', cost=6)
 add('k1_misc', 'none_ops_z0', 'none_ops::<Z0>()', props=['C01'], tier='t', cost=6)
 CAP_PANIC = [r"Can't change capacity", r'GhostMem as mem::Mem>::expand']
+add('k2_range', 'splice_fixed_overflow_e8', 'splice_fixed_overflow_h::<E8>(false, mk_e8)', props=['C11', 'C06'], tier='q', kind='panic', attrs=['#[kani::should_panic]', '#[kani::unwind(5)]'], allow=CAP_PANIC, cost=60)
+add('k2_range', 'splice_typed_fixed_overflow_e8', 'splice_fixed_overflow_h::<E8>(true, mk_e8)', props=['C11'], tier='t', kind='panic', attrs=['#[kani::should_panic]', '#[kani::unwind(5)]'], allow=CAP_PANIC, cost=60)
 for nm, pu, ty in [('push_fixed_full_e8', 'true', 'false'), ('insert_fixed_full_e8', 'false', 'false'), ('push_typed_fixed_full_e8', 'true', 'true'), ('insert_typed_fixed_full_e8', 'false', 'true')]:
     add('k1_misc', nm, 'fixed_overflow::<E8>(%s, %s, mk_e8)' % (pu, ty), props=['C11', 'C19'], tier='q', kind='panic', attrs=['#[kani::should_panic]'], allow=CAP_PANIC, cost=6)
 
